@@ -547,8 +547,74 @@ def shard_binding(args):
     return acc
 
 
+# ---------------------------------------------------------------------------------------
+# histories: the same plugin callables loaded several times with different sets installed
+
+
+def run_loads_case(case):
+    """case: relation ("before"|"after"), installs: list of lists of installed plugin names
+    in entry point order; the digests (and their constraints) are created once"""
+    import cobald.daemon.core.config as core_config
+    from cobald.daemon.config.mapping import load_configuration
+    from cobald.daemon.plugins import constraints
+
+    recorder = Recorder()
+    first = make_digest("pa", recorder, None)
+    second = make_digest("pb", recorder, None)
+    if case["relation"] == "before":
+        first = constraints(before=["pb"])(first)
+    else:
+        second = constraints(after=["pa"])(second)
+    digests = {"pa": first, "pb": second, "pc": make_digest("pc", recorder, None)}
+    saved = core_config.get_entrypoints
+    try:
+        for round_index, installed in enumerate(case["installs"]):
+            core_config.get_entrypoints = lambda group, names=installed: [
+                FakeEntryPoint(name, digests[name]) for name in names]
+            del recorder.calls[:]
+            try:
+                plugins = core_config.load_section_plugins(GROUP)
+                load_configuration({name: section_content(name) for name in installed}, plugins)
+            except Exception as err:  # noqa: B902
+                return ("loads:raised-%s" % type(err).__name__,
+                        "load %d of %r (pa %s pb) raised %s: %s" % (
+                            round_index, case["installs"], case["relation"],
+                            type(err).__name__, err))
+            order = [name for name, _content in recorder.calls]
+            if sorted(order) != sorted(installed):
+                return ("loads:calls", "load %d of %r called %r" % (
+                    round_index, case["installs"], order))
+            if "pa" in order and "pb" in order and order.index("pa") > order.index("pb"):
+                return ("loads:constraint-lost-after-earlier-load",
+                        "the digests were loaded with %r installed one after the other; in "
+                        "load %d the call order is %r although pa must precede pb (%s)"
+                        % (case["installs"], round_index, order, case["relation"]))
+    finally:
+        core_config.get_entrypoints = saved
+    return None
+
+
+def loads_cases():
+    for relation in ("before", "after"):
+        for installs in ([["pa"], ["pb", "pa"]], [["pb"], ["pb", "pa"]],
+                         [["pb", "pa"], ["pb", "pa"]], [["pc"], ["pb", "pc", "pa"]],
+                         [["pb", "pa"], ["pa"], ["pb"], ["pb", "pa"]]):
+            yield {"loads": True, "relation": relation, "installs": installs}
+
+
+def shard_loads(args):
+    acc = Acc()
+    for case in loads_cases():
+        problem = run_loads_case(case)
+        acc.case(nontrivial_key=repr(case), sample=case)
+        acc.outcome(("loads", problem is None))
+        if problem:
+            acc.violation(problem[0], problem[1], {"case": case})
+    return acc
+
+
 def shard(args):
-    return {"edges": shard_edges, "binding": shard_binding}[args[0]](args)
+    return {"edges": shard_edges, "binding": shard_binding, "loads": shard_loads}[args[0]](args)
 
 
 def run(ctx):
@@ -570,6 +636,7 @@ def run(ctx):
             shards += [("binding", ctx.quick, part, parts) for part in range(parts)]
         ctx.pmap(shard, shards)
     ctx.acc.count("edge-assignments-skipped-cyclic", skipped_cyclic)
+    ctx.pmap(shard, [("loads",)])
     ctx.meta.update(
         rule="plugin sets %s[:n], n=0..3, plus the name %r that is never installed; every "
              "assignment of {none, before, after} to every (plugin, other plugin) and "
@@ -602,5 +669,8 @@ def run(ctx):
 
 
 def replay(data):
+    if data["case"].get("loads"):
+        problem = run_loads_case(data["case"])
+        return None if problem is None else "%s: %s" % problem
     verdict, _obs = run_case(data["case"])
     return None if verdict is None else "%s: %s" % verdict
